@@ -10,6 +10,34 @@ pub proof fn lemma_grows_trans(m3: ReManager, m2: ReManager, m1: ReManager)
     assert forall|i: int| 0 <= i < m1.store.terms@.len() implies #[trigger] m3.store.terms@[i] == m1.store.terms@[i] by {
         assert(m2.store.terms@[i] == m1.store.terms@[i]);
     }
+    assert forall|k: DerivKey| #[trigger] m1.deriv_cache@.contains_key(k) implies m3.deriv_cache@.contains_key(k) && m3.deriv_cache@[k] == m1.deriv_cache@[k] by {
+        assert(m2.deriv_cache@.contains_key(k));
+    }
+}
+
+pub proof fn lemma_tderiv_grows(m2: ReManager, m1: ReManager, x: RegLan, cid: ClassId, y: RegLan)
+    requires grows(m2, m1), tderiv(m1, x, cid, y),
+    ensures tderiv(m2, x, cid, y),
+{
+    assert(m1.deriv_cache@.contains_key(DerivKey(x, cid)));
+}
+
+
+// the i-th interval of a well-formed partition belongs to class Interval(i) and to no other
+pub proof fn lemma_own_class_id(p: CharPartition, i: int, cid: ClassId)
+    requires cp_wf(p), 0 <= i < p.list@.len(), cp_is_class(p, p.list@[i].start as int, cid),
+    ensures cid == ClassId::Interval(i as usize),
+{
+    let x = p.list@[i].start as int;
+    assert(cs_wf(p.list@[i]));
+    assert(cs_has(p.list@[i], x));
+    match cid {
+        ClassId::Interval(k) => {
+            if (k as int) < i { assert(p.list@[k as int].end < p.list@[i].start); }
+            else if (k as int) > i { assert(p.list@[i].end < p.list@[k as int].start); }
+        }
+        ClassId::Complement => { assert(cl_in(p.list@, x)); }
+    }
 }
 
 pub proof fn lemma_extends_grows(m2: ReManager, m1: ReManager)
